@@ -173,7 +173,13 @@ pub fn check(c: &KaCase, st: &mut Stats) -> Result<(), Viol> {
             if (tick + ci as u64) % 3 == 0 && s.chance(40) {
                 clients[ci].my_pings += 1;
                 let t = format!("my{}", clients[ci].my_pings);
-                w.send_line(conn, &format!("PING {}", t));
+                // (the RFC form with a second parameter naming the server is answered alike)
+                let form = match clients[ci].my_pings % 3 {
+                    0 => format!("PING {} irc.irc", t),
+                    1 => format!("PING :{}", t),
+                    _ => format!("PING {}", t),
+                };
+                w.send_line(conn, &form);
                 w.settle();
                 let ls = w.drain(conn);
                 let mut got = false;
@@ -258,6 +264,18 @@ pub fn check(c: &KaCase, st: &mut Stats) -> Result<(), Viol> {
                     &log,
                 ));
             }
+        }
+        // no PING may be missing either: while the client is connected a PING is due every
+        // ping_timeout, whether or not earlier ones have been answered
+        let alive_until = cl.eof_ms.unwrap_or(start + horizon_ms);
+        let due = (1..).take_while(|i| cl.reg_ms + (*i as u128) * p as u128 * 1000 + slack + (step_ms as u128) < alive_until).count();
+        if cl.pings.len() < due {
+            return Err(fail(
+                "C17.ping_cadence",
+                format!("ping-missing:{}:{}", relation, class),
+                format!("{} ({}) was connected until t={} ms and got {} server PINGs; with ping_timeout {} s {} were due (pong_timeout {} s)", cl.nick, pat, alive_until, cl.pings.len(), p, due, q),
+                &log,
+            ));
         }
         let k = cl.pings.len();
         if k >= 2 && (relation != "q<p" || class != "responder") {
